@@ -19,7 +19,7 @@ PID = "C27"
 LEVEL = "proof"
 LEAN = ["SaVerif.Props.C27"]
 META = {
-    "text": "Lean theorems over ALL states / histories of the transcribed Connection+pool model: (disconnect_invalidates) an error classified as a disconnect - by the dialect or by a handle_error listener - always returns the disconnect result, leaves the Connection invalidated and moves the pool's invalidation time past every pooled connection (stale_never_handed_out: by an inductive invariant over all later histories no DBAPI connection that existed at the failure is ever held again); (pending_rollback_until_rollback) while invalidated with a transaction attached, execute / begin / begin_nested / commit / savepoint commit raise and neither the database nor the blocked state changes, for every sequence of such calls; (reconnect_after_rollback) rollback() then needs no DBAPI call, detaches the transaction and the next statement runs on a fresh, clean DBAPI connection; (non_disconnect_leaves_pool) errors not classified as disconnects leave connection, pool queue and invalidation time untouched; (failed_reconnect_stays_invalidated) a reconnect whose creator fails leaves the Connection invalidated and the pool without new usable connections; (recycle_respects_invalidation) for every pool_recycle setting a pooled connection is handed out only if born after the last pool invalidation. Tied to engine/base.py + pool/base.py by a per-step differential run with a fault at every position (5 fault points incl. the creator x 2 kinds x 4 listener modes x 3 pool_recycle settings) and a direct oracle (also run with pool_pre_ping).",
+    "text": "Lean theorems over ALL states / histories of the transcribed Connection+pool model: (disconnect_invalidates) an error classified as a disconnect - by the dialect or by a handle_error listener - always returns the disconnect result, leaves the Connection invalidated and moves the pool's invalidation time past every pooled connection (stale_never_handed_out: by an inductive invariant over all later histories no DBAPI connection that existed at the failure is ever held again); (pending_rollback_until_rollback) while invalidated with a transaction attached, execute / begin / begin_nested / commit / savepoint commit raise and neither the database nor the blocked state changes, for every sequence of such calls; (reconnect_after_rollback) rollback() then needs no DBAPI call, detaches the transaction and the next statement runs on a fresh, clean DBAPI connection; (non_disconnect_leaves_pool) errors not classified as disconnects leave connection, pool queue and invalidation time untouched; (handler_rollback_disconnect_invalidates) when a statement fails with an ordinary error before autobegin and the handler's own autorollback meets a dead connection (re-entrant _handle_dbapi_exception) Connection and pool end up exactly as for a direct disconnect although the error raised is not flagged; (failed_reconnect_stays_invalidated) a reconnect whose creator fails leaves the Connection invalidated and the pool without new usable connections; (recycle_respects_invalidation) for every pool_recycle setting a pooled connection is handed out only if born after the last pool invalidation. Tied to engine/base.py + pool/base.py by a per-step differential run with a fault at every position (5 fault points incl. the creator x 2 kinds x 4 listener modes x 3 pool_recycle settings) and a direct oracle (also run with pool_pre_ping).",
     "note": "reconnect_after_rollback is stated for a disconnect detected BEFORE rollback(); when the disconnect (or any error) is first raised BY rollback()/close() itself the savepoint objects stay current and active (rollback_failure_counterexample, known finding rollback-failure-leaves-savepoint-current, F19). Modelled-not-verified: the dialect's is_disconnect tables (only pysqlite's closed-database classification is executed; a fault kind stands for the classification), time.time() (logical clock substituted in sqlalchemy.pool.base), single-threaded QueuePool, DBAPI driver behind the proxy. pool_pre_ping is exercised by the oracle only (not in the Lean model); soft invalidation is not modelled.",
     "technique": "Lean 4 single-step theorems for all states + inductive invariants over all histories of a hand-transcribed model; per-step differential correspondence with fault injection on a real pool over SQLite",
     "design_ref": "DESIGN.md §3 C27",
@@ -47,6 +47,25 @@ def oracle(ops, records, listener, armed_before):
             continue
         f0, f1 = before["flags"], o["flags"]
         held0 = before["rid"].rstrip("au!")
+        # faults that fired during this step
+        fired = list(armed_before[i])
+        for x in (armed_before[i + 1] if i + 1 < len(armed_before) else []):
+            if x in fired:
+                fired.remove(x)
+        if tok == "D":
+            fired = []
+        # (a') the error handler's own autorollback (a statement failed with an ordinary error
+        # before a transaction had begun) met a dead DBAPI connection: the error that is raised
+        # is not flagged, but the disconnect was detected all the same
+        handler_disc = (
+            res == "OE" and held0 != "x" and ("r", "d") in fired and any(k == "e" for _, k in fired)
+        )
+        if handler_disc:
+            if f1[3] != "1" or o["rid"] != "x":
+                return ("c27-oracle", i, "step %d (%s): the rollback emitted by the error handler failed with a disconnect-classified error but the Connection is not invalidated (invalidated=%s, holds %s)" % (i, tok, f1[3], o["rid"]))
+            if listener != "nopool":
+                stale.add(held0)
+                stale.update(x for x in before["idle"].split(",") if x not in ("-", "N", "?"))
         # (a) a disconnect invalidates the Connection
         if res == "DISC":
             if f1[3] != "1" or o["rid"] != "x":
@@ -86,7 +105,7 @@ def oracle(ops, records, listener, armed_before):
         if tok == "b" and before["transaction"] != "N" and res == "ok":
             return ("c27-oracle", i, "step %d: begin() succeeded while transaction object #%s was still attached" % (i, before["transaction"]))
         # (e) errors not classified as disconnects leave the pool untouched
-        if res in ("OE", "IE") and held0 != "x" and f0[2] == "0":
+        if res in ("OE", "IE") and held0 != "x" and f0[2] == "0" and not handler_disc:
             if o["idle"] != before["idle"] or o["rid"].rstrip("au!") != held0 or f1[3] != f0[3]:
                 return ("c27-oracle", i, "step %d (%s) raised the non-disconnect error %s but pool/connection changed: idle %s -> %s, held %s -> %s" % (i, tok, res, before["idle"], o["idle"], before["rid"], o["rid"]))
         # (g) no savepoint object stays current once the transaction is gone
@@ -124,9 +143,15 @@ def gen_fault_history(rng, world, n):
             continue
         if r < 0.18:
             # arm a fault, then usually an op that reaches it
-            p = rng.choice("uxxxccrr")
-            kind = "d" if p == "u" else rng.choice("dde")
+            p = rng.choice("uuxxxccrr")
+            kind = rng.choice("dde")
             yield "F" + p + kind
+            if rng.random() < 0.3:
+                # a second failure of another class waits behind the first one: it is met by
+                # whatever the error handling itself does next on the DBAPI connection (its
+                # autorollback), or by the program's reaction (rollback / close / more use)
+                p2 = rng.choice([x for x in "rrrcx" if x != p])
+                yield "F" + p2 + ("e" if kind == "d" else rng.choice("dde"))
             if rng.random() < 0.85:
                 if p in "ux":
                     yield rng.choice(["i%d" % k, "q", "n", "i%d" % k])
@@ -179,6 +204,7 @@ def run_history(rng, n, listener, reset="rollback", recycle=None, pre_ping=False
             ops.append(tok)
             armed.append(list(w.plan.armed))
             recs.append(w.step(tok))
+        armed.append(list(w.plan.armed))  # what is still armed at the end
     finally:
         w.dispose()
     return ops, recs, armed
@@ -193,6 +219,7 @@ def replay_ops(ops, listener, reset="rollback", recycle=None, pre_ping=False):
         for tok in ops:
             armed.append(list(w.plan.armed))
             recs.append(w.step(tok))
+        armed.append(list(w.plan.armed))
     finally:
         w.dispose()
     return recs, armed
@@ -215,6 +242,13 @@ FIXED = [
     # the database stays down: the reconnect fails too; later an ordinary error
     ("W2;b;i1;Fxd;i2;R;Fnd;q;q;Fxe;i3;q;i4;C;q", "none"),
     ("W1;i1;Fxd;i2;R;Fne;q;q;C", "none"),
+    # a statement fails before autobegin (cursor creation); the handler's autorollback meets
+    # a dead connection / another ordinary error / works
+    ("W2;R;Fue;Frd;q;q;X", "none"),
+    ("W2;R;Fue;Frd;i1;C;q", "nopool"),
+    ("W1;R;Fue;Fre;q;q;i1;C", "none"),
+    ("W1;Fue;q;q;b;Fue;i1;R;q", "passive"),
+    ("W1;R;Fue;Frd;q;q", "force"),
 ]
 
 FIXED_RC = [
@@ -233,7 +267,7 @@ def run(ctx, deep=False):
     ctx.rule = (
         "histories (<=10 ops quick, <=16 thorough, plus 15 scripted x 2 pool_recycle settings) of execute/begin/begin_nested/commit/rollback/handle ops/"
         "invalidate with extra pooled connections, a fault (disconnect or plain error) armed at cursor()/execute()/commit()/rollback() and at "
-        "the pool's creator (failing reconnects followed by working ones and by plain errors) at random positions, x handle_error "
+        "the pool's creator (failing reconnects followed by working ones and by plain errors) at random positions, also two faults of different classes armed at once (the second one is met by the error handler's own autorollback or by the program's reaction), x handle_error "
         "listener in {none, passive, reclassify-as-disconnect, keep-pool} x pool_recycle in {unset, 3600, 6 or 3 clock ticks} x pool_pre_ping "
         "(12%, oracle only); every op's record compared with the Lean model and checked by the oracle; non-trivial = at least one "
         "fault fired or invalidate() was called"
